@@ -1,7 +1,8 @@
 ---------------------------- MODULE C07_Session ----------------------------
-(* C07 over HISTORIES: one live codon table is re-weighted in place          *)
-(* (Table.OptimizeTable writes the weights into the table's own backing      *)
-(* arrays) and used by codon.Optimize in between.  The specification's       *)
+(* C07 over HISTORIES: one live codon table is re-weighted in place - by     *)
+(* Table.OptimizeTable, which writes the weights into the table's own        *)
+(* backing arrays ("call"), or by assigning the exported Weight fields       *)
+(* directly ("fields") - and used by codon.Optimize in between.  The specification's       *)
 (* state is the table's CURRENT weights; the set of codons Optimize may emit *)
 (* and the residues it must reject are functions of that state alone -       *)
 (* whatever was optimised with the table before.  TLC enumerates every       *)
@@ -25,26 +26,27 @@ PatW(p, id, c) ==
       [] p = "deadF"     -> IF Code[id][c] \in {"F", "W"} THEN 0 ELSE 3
 WOf == [i \in IdsS |-> [p \in PatsS |-> [c \in Codons |-> PatW(p, i, c)]]]
 
-VARIABLES id, w, used, hist
-vars == <<id, w, used, hist>>
+VARIABLES id, w, how, used, hist
+vars == <<id, w, how, used, hist>>
+Hows == {"call", "fields"}
 (* hist: the steps before the current one, each [w, used]; used: Optimize has been called since the last re-weighting *)
-Init == id = 0 /\ w = Zeros /\ used = FALSE /\ hist = <<>>
-Open == id = 0 /\ id' \in IdsS /\ \E p \in PatsS : w' = WOf[id'][p] /\ used' = FALSE /\ hist' = <<>>
+Init == id = 0 /\ w = Zeros /\ how = "call" /\ used = FALSE /\ hist = <<>>
+Open == id = 0 /\ id' \in IdsS /\ how' \in Hows /\ \E p \in PatsS : w' = WOf[id'][p] /\ used' = FALSE /\ hist' = <<>>
 Reweight(p) == /\ id # 0 /\ Len(hist) + 1 < MaxLen
-               /\ w' = WOf[id][p] /\ used' = FALSE
-               /\ hist' = Append(hist, [w |-> w, used |-> used])
+               /\ w' = WOf[id][p] /\ used' = FALSE /\ how' \in Hows
+               /\ hist' = Append(hist, [w |-> w, how |-> how, used |-> used])
                /\ UNCHANGED id
 (* Optimize observes the table; it must not change it *)
-Use == id # 0 /\ ~used /\ used' = TRUE /\ UNCHANGED <<id, w, hist>>
+Use == id # 0 /\ ~used /\ used' = TRUE /\ UNCHANGED <<id, w, how, hist>>
 Next == Open \/ Use \/ \E p \in PatsS : Reweight(p)
 Spec == Init /\ [][Next]_vars
 
 Elig(aa) == Eligible(id, w, aa)
 Check == (id # 0 /\ ~used) =>
-    /\ CSVWrite("%1$s", <<ToJson([id |-> id, hist |-> [k \in 1..Len(hist) |-> [w |-> Sparse(hist[k].w), used |-> hist[k].used]],
+    /\ CSVWrite("%1$s", <<ToJson([id |-> id, hist |-> [k \in 1..Len(hist) |-> [w |-> Sparse(hist[k].w), how |-> hist[k].how, used |-> hist[k].used]], how |-> how,
                                    w |-> Sparse(w), elig |-> [aa \in LettersOf(id) |-> SetToSeq(Elig(aa))]])>>, IOEnv.OUTFILE)
     /\ \A aa \in LettersOf(id) : \A c \in Elig(aa) : Code[id][c] = aa /\ w[c] > 0
     /\ \A aa \in LettersOf(id) : (Elig(aa) = {}) <=> (Total(id, w, aa) = 0)
 (* what Optimize may emit is a function of the current weights only: two histories that end in the same weights have the same eligible sets *)
-UseIsPure == [][used' /\ ~used => UNCHANGED <<id, w, hist>>]_vars
+UseIsPure == [][used' /\ ~used => UNCHANGED <<id, w, how, hist>>]_vars
 ===========================================================================
